@@ -19,6 +19,14 @@ import specsim
 from corr import Case, compare, judge, account
 
 LEVEL = "proof"
+RULE = ("valid specifications are generated over the range of values the schema admits for each key (every run key, "
+        "counts as integers or $(P) references, every priority name and numeric priority, env variables / labels / "
+        "sources / path dependencies, 0-3 parameters); each is mutated structurally (delete / rename / retype / "
+        "duplicate / empty at a random tree position, top-level block operations, name-level rules: duplicate step, "
+        "every spelling of a self dependency, undefined / forward / duplicate dependency, reserved name, parameter "
+        "length / label / values rules, environment name clashes, spack / git / path blocks), sometimes twice; plus a "
+        "deterministic corpus and per-section Draft7 validity cases; non-trivial = the real pipeline did not simply "
+        "accept (rejections, internal errors) or the document is an unmutated valid one; distinct = distinct documents")
 
 
 def hx(s):
